@@ -1,7 +1,19 @@
 package props
 
 import (
+	"cmp"
+	"fmt"
+	"math"
+	"slices"
+
 	"godsverif/core"
+
+	"github.com/emirpasic/gods/v2/containers"
+	"github.com/emirpasic/gods/v2/lists/arraylist"
+	"github.com/emirpasic/gods/v2/lists/doublylinkedlist"
+	"github.com/emirpasic/gods/v2/queues/arrayqueue"
+	"github.com/emirpasic/gods/v2/queues/circularbuffer"
+	"github.com/emirpasic/gods/v2/stacks/arraystack"
 )
 
 // observeAll: every observer including iteration order, used to decide
@@ -27,8 +39,70 @@ func sameWalk(a, b []any) bool {
 	return true
 }
 
+// runC16Floats: GetSortedValues on float containers, including NaN (which
+// cmp.Compare orders before every number): the result must be in that sorted
+// order, hold the same values, and the container must keep its order.
+func runC16Floats(c *core.Ctx) {
+	r := c.R
+	nan := math.NaN()
+	pool := []float64{3, nan, 1, 2, math.Inf(1), -0.5, math.Inf(-1), 2, nan, 7.25, 1e300, -1e-300}
+	n := r.Range(2, 12)
+	vals := make([]float64, n)
+	for i := range vals {
+		vals[i] = pool[r.Intn(len(pool))]
+	}
+	same := func(a, b float64) bool { return a == b || (a != a && b != b) }
+	check := func(name string, cont containers.Container[float64]) {
+		before := cont.Values()
+		c.Begin(name, "GetSortedValues", fmt.Sprint(vals))
+		got := containers.GetSortedValues(cont)
+		if len(got) != len(before) {
+			c.Fail("sorted-values", "not-a-permutation", "containers.GetSortedValues(%s of %v) has %d values", name, before, len(got))
+		}
+		for i := 1; i < len(got); i++ {
+			if cmp.Compare(got[i-1], got[i]) > 0 {
+				c.Fail("sorted-values", "not-sorted", "containers.GetSortedValues(%s of %v) = %v is not in sorted order (NaN sorts first)", name, before, got)
+			}
+		}
+		want := slices.Clone(before)
+		slices.Sort(want)
+		for i := range want {
+			if !same(want[i], got[i]) {
+				c.Fail("sorted-values", "not-a-permutation", "containers.GetSortedValues(%s of %v) = %v, sorted contents are %v", name, before, got, want)
+			}
+		}
+		after := cont.Values()
+		for i := range before {
+			if len(after) != len(before) || !same(after[i], before[i]) {
+				c.Fail("sorted-values", "container-altered", "containers.GetSortedValues altered the %s: %v -> %v", name, before, after)
+			}
+		}
+		c.Count("obs:sorted-float-values-with-NaN", 1)
+	}
+	al := arraylist.New(vals...)
+	check("ArrayList", al)
+	dl := doublylinkedlist.New(vals...)
+	check("DoublyLinkedList", dl)
+	st := arraystack.New[float64]()
+	q := arrayqueue.New[float64]()
+	rb := circularbuffer.New[float64](n + r.Intn(3))
+	for _, v := range vals {
+		st.Push(v)
+		q.Enqueue(v)
+		rb.Enqueue(v)
+	}
+	check("ArrayStack", st)
+	check("ArrayQueue", q)
+	check("CircularBuffer", rb)
+	c.Nontrivial()
+}
+
 func runC16(c *core.Ctx) {
 	r := c.R
+	if c.Index%211 == 100 {
+		runC16Floats(c)
+		return
+	}
 	kind := dynKinds[c.Index%len(dynKinds)]
 	d := newDynRandom(c, kind, false)
 	d.build(c, r.Range(0, 30))
